@@ -35,27 +35,28 @@ def run_trace(P, pid, tier, rng):
     failed = {}
     for m in re.finditer(r"-- TRACE-ERROR (\S+) (.*)", gen):
         failed[m.group(1)] = f"T:{m.group(1)}: the real code could not be traced on the shadow input ({m.group(2)})"
-    tpath = f"{LEAN}/Cgm/Trace/{pid}.lean"
-    if not os.path.exists(tpath):
+    # hand-written obligations (Trace/<pid>.lean) and the ones generated from the driver tables (Trace/<pid>Auto.lean)
+    mods = [m for m in (pid, pid + "Auto") if os.path.exists(f"{LEAN}/Cgm/Trace/{m}.lean")]
+    if not mods:
         raise MachineryError(f"missing Cgm/Trace/{pid}.lean")
-    spans = _theorem_spans(tpath)
-    names = {n for _, n in spans}
+    spans_of = {m: _theorem_spans(f"{LEAN}/Cgm/Trace/{m}.lean") for m in mods}
+    names = {n for m in mods for _, n in spans_of[m]}
     for k, _ in ks:
         if k not in names:
-            raise MachineryError(f"kernel {k} has no obligation in Cgm/Trace/{pid}.lean")
-    rc, out = core.lake_build([f"Cgm.Trace.{pid}"])
+            raise MachineryError(f"kernel {k} has no obligation in Cgm/Trace/{pid}[Auto].lean")
+    rc, out = core.lake_build([f"Cgm.Trace.{m}" for m in mods])
     if rc != 0:
         hit = False
-        for m in re.finditer(r"error: (?:\./)?Cgm/Trace/%s\.lean:(\d+):" % pid, out):
-            ln = int(m.group(1))
+        for m in re.finditer(r"error: (?:\./)?Cgm/Trace/(%s(?:Auto)?)\.lean:(\d+):" % pid, out):
+            mod, ln = m.group(1), int(m.group(2))
             owner = None
-            for (start, name) in spans:
+            for (start, name) in spans_of.get(mod, []):
                 if start <= ln:
                     owner = name
             if owner:
                 hit = True
-                failed.setdefault(owner, f"T:{owner}: the obligation `Cg.Trace.{pid}.{owner}` no longer checks against the "
-                                         f"definition regenerated from the source (Cgm/Trace/{pid}.lean:{ln})")
+                failed.setdefault(owner, f"T:{owner}: the obligation `Cg.Trace.{mod}.{owner}` no longer checks against the "
+                                         f"definition regenerated from the source (Cgm/Trace/{mod}.lean:{ln})")
         if re.search(r"error: (?:\./)?Cgm/Gen/%s\.lean" % pid, out):
             hit = True
             for k, _ in ks:
@@ -64,18 +65,19 @@ def run_trace(P, pid, tier, rng):
             raise MachineryError(f"lake build Cgm.Trace.{pid} failed for another reason:\n{out[-3000:]}")
     else:
         # axioms of the obligations
-        apath = f"Cgm/Audit/T{pid}.lean"
-        if not os.path.exists(f"{LEAN}/{apath}"):
-            raise MachineryError(f"missing {apath}")
-        rc2, out2 = core.run(["lake", "env", "lean", apath], cwd=LEAN, timeout=900)
-        if rc2 != 0:
-            raise MachineryError(f"audit of trace obligations failed:\n{out2[-2000:]}")
         seen = {}
-        for line in out2.split("\n"):
-            if line.startswith("THEOREM "):
-                name = line.split(" ")[1].split(".")[-1]
-                axs = {a.strip() for a in line.split(" AXIOMS ")[1].strip().strip("[]").split(",") if a.strip()}
-                seen[name] = axs
+        for mod in mods:
+            apath = f"Cgm/Audit/T{mod}.lean"
+            if not os.path.exists(f"{LEAN}/{apath}"):
+                raise MachineryError(f"missing {apath}")
+            rc2, out2 = core.run(["lake", "env", "lean", apath], cwd=LEAN, timeout=900)
+            if rc2 != 0:
+                raise MachineryError(f"audit of trace obligations failed:\n{out2[-2000:]}")
+            for line in out2.split("\n"):
+                if line.startswith("THEOREM "):
+                    name = line.split(" ")[1].split(".")[-1]
+                    axs = {a.strip() for a in line.split(" AXIOMS ")[1].strip().strip("[]").split(",") if a.strip()}
+                    seen[name] = axs
         for k, _ in ks:
             if k not in seen:
                 raise MachineryError(f"obligation {k} not found by the audit")
